@@ -271,6 +271,20 @@ def fold_rule(ctx, rule):
             if ok and not ({"chain", "once"} <= names or "iter" in names):
                 ok, why = False, "the rhs iterator is not the operand list in source order (%s)" % sorted(x for x in names if x)
         rep.ob(rule, "fold::caller::" + mname, ok, why, fn.loc(), how="binary_operator_fold(op, lhs value, operands in order, self)")
+        if mname == "visit_binary_expression" and len(cs) == 1:
+            # no value of a binary expression is produced by other code than the fold: every non-error path of the method (and of
+            # the helper hosting the fold, if any) passes the fold call
+            method = find_method(F, trait, mname, owner)
+            host, fbi, _ = found[0]
+            ok3, why3 = True, ""
+            if common.path_to_return_avoiding(host, [fbi]):
+                ok3, why3 = False, "%s can return a value without passing binary_operator_fold: some operator / operand combinations are decided by other code than the operator table" % host.path.split("::")[-1]
+            elif host is not method:
+                via = [bi for bi, t in method.calls() if callee_def(t) == host.path]
+                if not via or common.path_to_return_avoiding(method, via):
+                    ok3, why3 = False, "visit_binary_expression can return a value without passing the helper that folds"
+            rep.ob(rule, "fold::caller::" + mname + "::every-path-through-fold", ok3, why3, method.loc(),
+                   how="no non-error path from entry to return avoids the fold call")
 
 
 def kind_deep(fn, operand, depth=0, seen=None):
@@ -474,6 +488,10 @@ def c03(ctx):
     rep.floor("C03.R5", n, 246, "table cells")
     term_anchor_rule(ctx, "C03.R5")
     rendering_rule(ctx, "C03.R6")
+    rep.rule("C03.R8", "canonical rendering of numbers: in the interpreter no float-to-integer conversion (which saturates, truncates and loses "
+             "the sign of zero) is turned into text -- a number's text is the f64's own Display (rule shared with C08.R6 / C18.R6)")
+    from .c18 import text_from_cast_rule
+    text_from_cast_rule(ctx, "C03.R8", scope=lambda fn: fn.file.startswith("src/exec/"), min_fns=60)
 
 
 
